@@ -175,6 +175,7 @@ _SIGS = {
     "shim_tree_rawhash": (c_uint64, [P]),
     "ledger_set_packed": (None, [c_int]),
     "shim_set_errno": (None, [c_int]), "shim_get_errno": (c_int, []),
+    "probe_set_stack_fill": (None, [c_int]),
     "shim_get_pointer_errno": (P, [P, c_char_p, c_int, c_int]),
     "shim_members_named_by_value": (c_long, [P]),
 }
